@@ -528,6 +528,9 @@ func (en *Engine) VerifyFunc(fc *FuncContract) (res *FuncResult) {
 	for _, gv := range fc.Ghosts {
 		v := fr.evalExpr(sc, gv.Init)
 		gt := en.parseType(fr.pkg, gv.Type)
+		if gt == nil && isNilConst(v) {
+			panic(contractErr("ghost " + gv.Name + ": unknown type " + gv.Type))
+		}
 		switch {
 		case isNilConst(v) && gt != nil:
 			v = en.zero(gt)
@@ -735,6 +738,17 @@ func (en *Engine) parseType(pkg *types.Package, s string) types.Type {
 	case strings.HasPrefix(s, "[]"):
 		if t := en.parseType(pkg, s[2:]); t != nil {
 			return types.NewSlice(t)
+		}
+		return nil
+	case strings.HasPrefix(s, "chan<-"), strings.HasPrefix(s, "<-chan"), strings.HasPrefix(s, "chan "):
+		dir, rest := types.SendRecv, s[len("chan "):]
+		if strings.HasPrefix(s, "chan<-") {
+			dir, rest = types.SendOnly, s[len("chan<-"):]
+		} else if strings.HasPrefix(s, "<-chan") {
+			dir, rest = types.RecvOnly, s[len("<-chan"):]
+		}
+		if t := en.parseType(pkg, rest); t != nil {
+			return types.NewChan(dir, t)
 		}
 		return nil
 	}
